@@ -125,6 +125,7 @@ OVERLAYS = {
     "snaps_helper_nontest.go": ("snaps", "zz_verif_helper_nontest.go"),
     "snaps_sched_nontest.go": ("snaps", "zz_verif_sched_nontest.go"),
     "snaps_sched_test.go": ("snaps", "zz_verif_sched_test.go"),
+    "snaps_frame_test.go": ("snaps", "zz_verif_frame_test.go"),
 }
 
 
